@@ -24,8 +24,12 @@ namespace Oomd {
 class ContinuePlugin : public Engine::BasePlugin {
  public:
   int init(
-      const Engine::PluginArgs& /* unused */,
+      const Engine::PluginArgs& args,
       const PluginConstructionContext& /* unused */) override {
+    // declares no arguments: anything passed is unknown and refused
+    if (!argParser_.parse(args)) {
+      return 1;
+    }
     return 0;
   }
 
